@@ -153,7 +153,7 @@ def ct_check_cbc_mac_and_pad(data, mac, seqnumBytes, contentType, version,
         # block size
 
         # subtract 1 for the pad length byte
-        mask = ct_lsb_prop_u8(ct_lt_u32(block_size, pad_length))
+        mask = ct_lsb_prop_u8(ct_lt_u32(block_size - 1, pad_length))
         result |= mask
     else:
         start_pos = max(0, data_len - 256)
